@@ -180,6 +180,10 @@ func checkC07(rc *Run) error {
 					rc.Report("untouched-"+bad+":"+label, fmt.Sprintf("yq '%s' on %q prints %q: outside the target, %s differs", expr, text, p.Stdout, bad), concrete)
 					continue
 				}
+				if !isSubsequence(c.Keep, out.Comments) && reDecoratedEmpty.MatchString(text) {
+					rc.Report("comment-lost:line-comment-of-anchored-or-tagged-empty-value", fmt.Sprintf("yq '%s' on %q prints %q: the line comment behind an anchor / tag that decorates an empty value is lost (as with yq .)", expr, text, p.Stdout), concrete)
+					continue
+				}
 				if !isSubsequence(c.Keep, out.Comments) {
 					rc.Report("comment-lost:"+label, fmt.Sprintf("yq '%s' on %q prints %q: comments to keep %q, comments found %q", expr, text, p.Stdout, c.Keep, out.Comments), concrete)
 					continue
